@@ -18,6 +18,7 @@ import (
 	index "github.com/blevesearch/bleve_index_api"
 
 	"verif/bx"
+	"verif/lww"
 	"verif/mc"
 	"verif/sched/drv"
 	"verif/sched/vrt"
@@ -465,6 +466,135 @@ func bodyGated(conf map[string]interface{}, viaForceMerge bool) func(c *drv.Ctx)
 	}
 }
 
+// ---- persist / in-memory-merge window: the persister is parked (public event callback) while two
+// unsafe batches pile up; it is released together with a low-priority client thread issuing a
+// delete-only batch (a handful of scheduling steps), so that one deviation inside the persister's
+// merge-and-flush window lands that batch between "persister took its snapshot" and "merged /
+// persisted segments introduced". Every reader must keep showing whole batches.
+
+type persistGate struct {
+	armed   bool
+	parked  chan int
+	release chan int
+}
+
+var pgate *persistGate
+
+func init() {
+	scorch.RegistryEventCallbacks["verif-c04-persister-gate"] = func(e scorch.Event) bool {
+		if g := pgate; g != nil && g.armed && e.Kind == scorch.EventKindPersisterProgress {
+			g.armed = false
+			vrt.Send(g.parked, 1)
+			vrt.Recv(g.release)
+		}
+		return true
+	}
+}
+
+var winWorkload = []lww.Batch{
+	{{Kind: "I", ID: "a", V: 1}, {Kind: "I", ID: "b", V: 1}, {Kind: "S", ID: "seq", V: 1}},
+	{{Kind: "I", ID: "c", V: 1}, {Kind: "I", ID: "d", V: 2}, {Kind: "S", ID: "seq", V: 2}},
+	{{Kind: "D", ID: "a"}, {Kind: "D", ID: "c"}, {Kind: "S", ID: "seq", V: 3}},
+	{{Kind: "I", ID: "a", V: 2}, {Kind: "S", ID: "seq", V: 4}},
+}
+var winIDs = []string{"a", "b", "c", "d", "zz"}
+
+func winModel(q int) *lww.Model {
+	m := lww.New()
+	for j := 0; j < q; j++ {
+		m.Apply(winWorkload[j])
+	}
+	return m
+}
+
+func bodyPersistWindow(conf map[string]interface{}) func(c *drv.Ctx) {
+	return func(c *drv.Ctx) {
+		g := &persistGate{armed: true, parked: make(chan int, 1), release: make(chan int, 1)}
+		pgate = g
+		defer func() { pgate = nil }()
+		var idx bleve.Index
+		vrt.Free(func() {
+			cf := bx.CopyConfig(conf)
+			cf["eventCallbackName"] = "verif-c04-persister-gate"
+			var err error
+			idx, err = bleve.NewUsing(c.Dir+"/idx", bleve.NewIndexMapping(), scorch.Name, scorch.Name, cf)
+			if err != nil {
+				panic(err)
+			}
+		})
+		vrt.Recv(g.parked)
+		adv, _ := idx.Advanced()
+		submitted := 0
+		do := func(j int) {
+			submitted = j
+			if err := lww.ExecBatch(idx, winWorkload[j-1]); err != nil {
+				c.Fail("error:batch", "Batch %d: %v", j, err)
+			}
+		}
+		// view: one reader = one whole-batch state, not older than `atLeast` (unsafe batches are visible
+		// as soon as their call returned)
+		view := func(what string, atLeast int) (index.IndexReader, int) {
+			r, err := adv.Reader()
+			if err != nil {
+				c.Fail("error:reader", "Reader: %v", err)
+				return nil, 0
+			}
+			v, _ := r.GetInternal([]byte("seq"))
+			q := 0
+			if v != nil {
+				q, _ = strconv.Atoi(string(v))
+			}
+			if q > submitted || q < atLeast {
+				c.Fail("stale-read:reader", "%s: reader shows batch %d, expected between %d (returned) and %d (submitted)", what, q, atLeast, submitted)
+			} else if bad := winModel(q).CheckReader(r, winIDs, []string{"seq"}); len(bad) > 0 {
+				c.Fail("torn-view:reader", "%s: one reader shows batch %d (internal key) but: %s", what, q, strings.Join(bad, "; "))
+			}
+			c.Observe(fmt.Sprintf("%s=%d", what, q))
+			return r, q
+		}
+		do(1)
+		do(2)
+		held, hq := view("after-batch-2", 2)
+		start := make(chan int, 1)
+		var wg vrt.WaitGroup
+		wg.Add(1)
+		vrt.Go(func() { // created last: lowest priority in the default schedule
+			defer wg.Done()
+			vrt.Recv(start)
+			do(3)
+		})
+		vrt.Send(start, 1)
+		vrt.Send(g.release, 1)
+		wg.Wait()
+		if r, _ := view("after-delete-only-batch", 3); r != nil {
+			r.Close()
+		}
+		vrt.WaitIdle() // merged / persisted segments have replaced the in-memory ones
+		if r, _ := view("after-persist-settled", 3); r != nil {
+			r.Close()
+		}
+		if held != nil {
+			if bad := winModel(hq).CheckReader(held, winIDs, []string{"seq"}); len(bad) > 0 {
+				c.Fail("reader-changed", "a reader held since batch %d no longer shows that state: %s", hq, strings.Join(bad, "; "))
+			}
+			held.Close()
+		}
+		do(4)
+		vrt.WaitIdle()
+		if r, _ := view("after-batch-4", 4); r != nil {
+			r.Close()
+		}
+		vrt.Free(func() {
+			if bad := winModel(4).Check(idx, winIDs, []string{"seq"}); len(bad) > 0 {
+				c.Fail("final-state", "after all batches: %s", strings.Join(bad, "; "))
+			}
+			if err := idx.Close(); err != nil {
+				c.Fail("error:close", "Close: %v", err)
+			}
+		})
+	}
+}
+
 var unsafe2 = map[string]interface{}{"unsafe_batch": true, "scorchPersisterOptions": map[string]interface{}{"NumPersisterWorkers": 2, "MaxSizeInMemoryMergePerWorker": 1}}
 var aggressive = map[string]interface{}{"scorchMergePlanOptions": bx.AggressiveMergePlan}
 var nomerge = map[string]interface{}{"scorchMergePlanOptions": bx.NoMergePlan}
@@ -490,6 +620,10 @@ func Scenarios() []drv.Scenario {
 			Body: bodyGated(aggressive, false), Quick: d1, Thorough: []drv.Phase{{Bound: 1}, {Bound: 2, Filter: "restricted"}}},
 		{Name: "S7-batch-lands-while-forced-merge-in-flight", Doc: "the same with merging suppressed and a ForceMerge thread",
 			Body: bodyGated(nomerge, true), Quick: d1, Thorough: []drv.Phase{{Bound: 1}, {Bound: 2, Filter: "restricted"}}},
+		{Name: "S8-delete-only-batch-lands-in-persist-window", Doc: "two unsafe batches pile up behind a parked persister; it is released together with a low-priority delete-only batch; readers before, during and after",
+			Body: bodyPersistWindow(unsafe2), Quick: d1r, Thorough: []drv.Phase{{Bound: 1}, {Bound: 2, Filter: "restricted"}}},
+		{Name: "S9-delete-only-batch-lands-in-persist-window-legacy-flush", Doc: "the same with one persister worker (legacy one-shot in-memory merge + flush)",
+			Body: bodyPersistWindow(map[string]interface{}{"unsafe_batch": true}), Quick: d1r, Thorough: []drv.Phase{{Bound: 1}, {Bound: 2, Filter: "restricted"}}},
 		{Name: "S5-upsidedown-gtreap", Doc: "2 writers × 2 batches ∥ reader + searcher on upsidedown/gtreap",
 			Body: body(cfg{engine: "upsidedown", writers: 2, batches: 2, searcher: true}), Quick: d1,
 			Thorough: []drv.Phase{{Bound: 2}}},
